@@ -403,6 +403,9 @@ func runC09(c *Ctx) {
 	p := c.P
 	checkWrapperNotTakenForPacket(c, "R7")
 	checkStandaloneParsesFlagsFirst(c, "R8")
+	// R9 (= C02.R18): the refusal is an object of its own, carrying the refused request's id
+	checkRepliesAreFresh(c, "R9")
+	checkOptionErrorRefusesConstruction(c, "R10")
 	// R9 (shared with C02.R11): the refusal of a modifying request is addressed by the packet's id()
 	checkIDMethods(c, "R9")
 	checkOpenfilePassthrough(c, "R2")
@@ -885,6 +888,13 @@ func runC09(c *Ctx) {
 		if typeName(t) == "sshFxpExtendedPacket" {
 			for _, s := range specific {
 				decide("extended/"+typeName(s), s, t, true)
+			}
+			// and whatever form the extended request reaches the gate in: handed on as its specific packet (the request
+			// server's worker unwraps it that way), the gate must classify it just the same
+			if where := specificPacketQueued(p); where != "" {
+				for _, s := range specific {
+					decide("extended, queued as its specific packet ("+where+")/"+typeName(s), s, s, true)
+				}
 			}
 			continue
 		}
@@ -1386,4 +1396,76 @@ func checkStandaloneParsesFlagsFirst(c *Ctx, rule string) {
 		})
 	}
 	c.check(gated, rule, "-R adds the ReadOnly option", p.Pos(mainFn.Pos()), "sftp.ReadOnly() under the test of the variable bound to -R", "the ReadOnly option does not hang on the variable that -R sets (sftp-server's flag for a read-only server): -R serves read-write, or another flag makes the server read-only")
+}
+
+
+// specificPacketQueued: somewhere on the way to the os server's worker the specific packet of an extended request is
+// put into the ordering wrapper in place of the request itself (a load of a SpecificPacket field flows into the
+// requestPacket field of an orderedRequest) — the gate then sees the specific packet, not *sshFxpExtendedPacket.  The
+// request server's own worker does this to its private copy behind the hand-off and is not on that way.
+func specificPacketQueued(p *Program) string {
+	where := ""
+	for _, fn := range p.LibFuncs() {
+		o := outermost(fn)
+		if o.Package() != p.Sftp {
+			continue
+		}
+		if o.Signature.Recv() != nil && typeName(o.Signature.Recv().Type()) == "RequestServer" {
+			continue
+		}
+		eachInstr(fn, func(in ssa.Instruction) {
+			st, ok := in.(*ssa.Store)
+			if !ok {
+				return
+			}
+			t, name, _, ok := fieldOf(st.Addr)
+			if !ok || name != "requestPacket" || typeName(t) != "orderedRequest" {
+				return
+			}
+			seen := map[ssa.Value]bool{}
+			var from func(v ssa.Value, d int) bool
+			from = func(v ssa.Value, d int) bool {
+				if v == nil || seen[v] || d > 8 {
+					return false
+				}
+				seen[v] = true
+				switch x := v.(type) {
+				case *ssa.Phi:
+					for _, e := range x.Edges {
+						if from(e, d+1) {
+							return true
+						}
+					}
+				case *ssa.ChangeInterface:
+					return from(x.X, d+1)
+				case *ssa.MakeInterface:
+					return from(x.X, d+1)
+				case *ssa.TypeAssert:
+					return from(x.X, d+1)
+				case *ssa.Extract:
+					return from(x.Tuple, d+1)
+				case *ssa.UnOp:
+					if _, n, _, ok := fieldOf(x.X); ok && n == "SpecificPacket" {
+						return true
+					}
+					if a, ok := x.X.(*ssa.Alloc); ok {
+						for _, s2 := range storesTo(a.Parent(), a) {
+							if from(s2.Val, d+1) {
+								return true
+							}
+						}
+					}
+				case *ssa.Field:
+					if _, n, _, ok := fieldOf(x); ok && n == "SpecificPacket" {
+						return true
+					}
+				}
+				return false
+			}
+			if from(st.Val, 0) {
+				where = fnName(fn)
+			}
+		})
+	}
+	return where
 }
